@@ -37,6 +37,7 @@ type Machine struct {
 }
 
 type state struct {
+	fields  map[string]sym.Expr // fields assigned through a variable (r.begin): name -> value
 	env     map[types.Object]sym.Expr
 	conds   []sym.Expr
 	sends   []sym.Expr
@@ -47,6 +48,12 @@ func (s *state) clone() *state {
 	n := &state{env: map[types.Object]sym.Expr{}}
 	for k, v := range s.env {
 		n.env[k] = v
+	}
+	if s.fields != nil {
+		n.fields = map[string]sym.Expr{}
+		for k, v := range s.fields {
+			n.fields[k] = v
+		}
 	}
 	n.conds = append([]sym.Expr{}, s.conds...)
 	n.sends = append([]sym.Expr{}, s.sends...)
@@ -62,6 +69,9 @@ type builder struct {
 	state  map[string]bool
 	reads  map[string]bool
 	names  map[types.Object]string
+
+	sumDepth   int
+	recvByType map[string]map[string]bool
 }
 
 // FromFuncLit extracts the guarded commands of a function literal.
@@ -79,6 +89,27 @@ func FromFuncLit(info *types.Info, lit *ast.FuncLit) *Machine {
 		}
 	}
 	b.run(lit.Body.List, st)
+	return b.finish()
+}
+
+// FromFuncDecl extracts the guarded commands of a declared function or method; the receiver's
+// fields that are assigned become remembered values ("r.begin").
+func FromFuncDecl(info *types.Info, fd *ast.FuncDecl) *Machine {
+	if fd.Body == nil {
+		return &Machine{}
+	}
+	b := newBuilder(info, fd.Body.Pos(), fd.Body.End())
+	if fd.Type.Params != nil {
+		for _, f := range fd.Type.Params.List {
+			for _, nm := range f.Names {
+				if obj := info.Defs[nm]; obj != nil {
+					b.params[obj] = true
+					b.m.Params = append(b.m.Params, nm.Name)
+				}
+			}
+		}
+	}
+	b.run(fd.Body.List, &state{env: map[types.Object]sym.Expr{}})
 	return b.finish()
 }
 
@@ -130,6 +161,10 @@ func (b *builder) end(st *state, exit string, ret []sym.Expr) {
 			p.Updates[obj.Name()] = v
 			b.state[obj.Name()] = true
 		}
+	}
+	for name, v := range st.fields {
+		p.Updates[name] = v
+		b.state[name] = true
 	}
 	b.m.Paths = append(b.m.Paths, p)
 }
@@ -280,6 +315,9 @@ func (b *builder) stmt(s ast.Stmt, st *state) []*state {
 		}
 		return out
 	case *ast.ForStmt, *ast.RangeStmt:
+		if fs, ok := s.(*ast.ForStmt); ok && b.summation(fs, st) {
+			return []*state{st}
+		}
 		b.unsupported(s.Pos(), "loop")
 		// the loop's effects are unknown: variables assigned inside become opaque
 		ast.Inspect(s, func(n ast.Node) bool {
@@ -300,6 +338,145 @@ func (b *builder) stmt(s ast.Stmt, st *state) []*state {
 	}
 	b.unsupported(s.Pos(), fmt.Sprintf("%T", s))
 	return []*state{st}
+}
+
+// summation recognises `for i := A; i < B; i++ { acc += e(i) }` (also `acc = acc + e(i)`) and
+// records acc' = acc + sum(A, B, e($k)); the loop variable becomes the bound name $k. Method
+// calls in e are kept as operator applications (their reads are not effects of the step).
+func (b *builder) summation(fs *ast.ForStmt, st *state) bool {
+	init, ok := fs.Init.(*ast.AssignStmt)
+	if !ok || init.Tok != token.DEFINE || len(init.Lhs) != 1 || len(init.Rhs) != 1 {
+		return false
+	}
+	iv, ok := init.Lhs[0].(*ast.Ident)
+	if !ok {
+		return false
+	}
+	iobj := b.info.Defs[iv]
+	cond, ok := fs.Cond.(*ast.BinaryExpr)
+	if !ok || cond.Op != token.LSS {
+		return false
+	}
+	if ci, ok := cond.X.(*ast.Ident); !ok || b.info.Uses[ci] != iobj {
+		return false
+	}
+	post, ok := fs.Post.(*ast.IncDecStmt)
+	if !ok || post.Tok != token.INC {
+		return false
+	}
+	if pi, ok := post.X.(*ast.Ident); !ok || b.info.Uses[pi] != iobj {
+		return false
+	}
+	if len(fs.Body.List) != 1 {
+		return false
+	}
+	as, ok := fs.Body.List[0].(*ast.AssignStmt)
+	if !ok || len(as.Lhs) != 1 || len(as.Rhs) != 1 {
+		return false
+	}
+	acc, ok := as.Lhs[0].(*ast.Ident)
+	if !ok {
+		return false
+	}
+	accObj := b.info.Uses[acc]
+	if accObj == nil {
+		return false
+	}
+	var term ast.Expr
+	switch as.Tok {
+	case token.ADD_ASSIGN:
+		term = as.Rhs[0]
+	case token.ASSIGN:
+		be, ok := as.Rhs[0].(*ast.BinaryExpr)
+		if !ok || be.Op != token.ADD {
+			return false
+		}
+		if l, ok := be.X.(*ast.Ident); ok && b.info.Uses[l] == accObj {
+			term = be.Y
+		} else if r, ok := be.Y.(*ast.Ident); ok && b.info.Uses[r] == accObj {
+			term = be.X
+		} else {
+			return false
+		}
+	default:
+		return false
+	}
+	// the summand must not mention the accumulator
+	usesAcc := false
+	ast.Inspect(term, func(n ast.Node) bool {
+		if id, ok := n.(*ast.Ident); ok && b.info.Uses[id] == accObj {
+			usesAcc = true
+		}
+		return true
+	})
+	if usesAcc {
+		return false
+	}
+	b.sumDepth++
+	bound := sym.V(fmt.Sprintf("$k%d", b.sumDepth))
+	lo := b.expr(init.Rhs[0], st)
+	hi := b.expr(cond.Y, st)
+	inner := st.clone()
+	inner.env[iobj] = bound
+	nEff := len(inner.effects)
+	body := b.expr(term, inner)
+	_ = nEff // reads inside the summand are not effects of the step
+	b.sumDepth--
+	cur := b.lookup(accObj, acc.Name, st)
+	st.env[accObj] = sym.Add(cur, sym.F("sum", lo, hi, body))
+	return true
+}
+
+// receiverName: "Ring" for the only *helper.Ring used between lo and hi, otherwise the expression text.
+func (b *builder) receiverName(x ast.Expr) string {
+	text := types.ExprString(x)
+	tn := ""
+	if t := b.info.TypeOf(x); t != nil {
+		if p, ok := t.(*types.Pointer); ok {
+			t = p.Elem()
+		}
+		if n, ok := t.(*types.Named); ok {
+			tn = n.Obj().Name()
+		}
+	}
+	if tn == "" {
+		return text
+	}
+	if b.recvByType == nil {
+		b.recvByType = map[string]map[string]bool{}
+		for sel, s := range b.info.Selections {
+			if sel.Pos() < b.lo || sel.Pos() > b.hi || s.Kind() != types.MethodVal {
+				continue
+			}
+			rt := ""
+			if t := b.info.TypeOf(sel.X); t != nil {
+				if p, ok := t.(*types.Pointer); ok {
+					t = p.Elem()
+				}
+				if n, ok := t.(*types.Named); ok {
+					rt = n.Obj().Name()
+				}
+			}
+			if rt == "" {
+				continue
+			}
+			if b.recvByType[rt] == nil {
+				b.recvByType[rt] = map[string]bool{}
+			}
+			b.recvByType[rt][types.ExprString(sel.X)] = true
+		}
+	}
+	if len(b.recvByType[tn]) == 1 {
+		return tn
+	}
+	return text
+}
+
+func (b *builder) lookup(obj types.Object, name string, st *state) sym.Expr {
+	if v, ok := st.env[obj]; ok {
+		return v
+	}
+	return sym.V(name)
 }
 
 func (b *builder) assign(x *ast.AssignStmt, st *state) {
@@ -334,6 +511,15 @@ func (b *builder) set(l ast.Expr, v sym.Expr, st *state) {
 	id, ok := l.(*ast.Ident)
 	if !ok {
 		st.effects = append(st.effects, "assign "+types.ExprString(l))
+		// a field of a variable (r.begin = ...) is tracked as a remembered value as well
+		if sel, isSel := l.(*ast.SelectorExpr); isSel {
+			if _, isID := sel.X.(*ast.Ident); isID {
+				if st.fields == nil {
+					st.fields = map[string]sym.Expr{}
+				}
+				st.fields[types.ExprString(sel)] = v
+			}
+		}
 		return
 	}
 	if id.Name == "_" {
@@ -413,6 +599,9 @@ func (b *builder) expr(e ast.Expr, st *state) sym.Expr {
 			}
 		}
 		name := types.ExprString(x)
+		if v, ok := st.fields[name]; ok {
+			return v
+		}
 		b.reads[name] = true
 		if _, ok := b.m.ReadExprs[name]; !ok {
 			b.m.ReadExprs[name] = x
@@ -468,11 +657,13 @@ func (b *builder) expr(e ast.Expr, st *state) sym.Expr {
 		case "math.Pow":
 			return sym.F("pow", args...)
 		}
-		// a method call on an object: opaque, the receiver is part of the name
+		// a method call on an object: opaque; named by the receiver's type when the analysed code
+		// uses one object of that type (so that renaming the variable changes nothing), else by
+		// the receiver expression
 		if sel, ok := x.Fun.(*ast.SelectorExpr); ok {
 			if s := b.info.Selections[sel]; s != nil {
 				st.effects = append(st.effects, types.ExprString(x))
-				return sym.F(types.ExprString(sel.X)+"."+sel.Sel.Name, args...)
+				return sym.F(b.receiverName(sel.X)+"."+sel.Sel.Name, args...)
 			}
 		}
 		return sym.F(name, args...)
